@@ -10,7 +10,7 @@ mkdir -p /tmp/mutant_root && cp /verif/known_findings.jsonl /tmp/mutant_root/
 out="/tmp/mutant_${id}_${prop}_${tier}.log"
 VERIF_ROOT=/tmp/mutant_root ./check "$prop" "$tier" > "$out" 2>&1
 rc=$?
-git -C /repo checkout -- .
+git -C /repo checkout -- . && ./check build
 echo "$id $prop $tier exit=$rc  $(grep -c '^VIOLATION' "$out") violation line(s)"
 grep -E "^violation:" "$out" | cut -c1-260 | head -4
 exit 0
